@@ -27,6 +27,10 @@ def main():
         with open(ctl, "w") as f:
             json.dump(c, f)
     src, dst = local(sys.argv[-2]), sys.argv[-1]
+    if mode == "hang":
+        import time
+        time.sleep(3)
+        return 0
     if mode == "fail-src":
         sys.stderr.write(f'{name}: link_stat "{src}" failed: No such file or directory (2)\n')
         return 23
